@@ -82,6 +82,31 @@ Definition order_of_typ (typ : string) : option (option (list string)) :=
 (* the cert argument of verify_redirect_signature / one published certificate of the issuer *)
 Inductive certarg (cert : Type) := CAbsent | CCert (c : cert) | CUnreadable.
 
+(* ---- long-lived receivers (strengthening round 5).  A receiver (Server) lives through many receptions; between
+   them its metadata is reloaded (MetadataStore.reload / Entity.reload_metadata), certificates are looked up, it
+   signs messages of its own.  What the code keeps between two receptions that matters here is the metadata alone:
+   r_pub = for every issuer (numbered) the signing certificates that metadata.certs(issuer, "any", "signing")
+   yields NOW, in order; r_own / r_must are configuration and never change. *)
+Record receiver (key cert : Type) := mkrcv { r_own : key; r_must : bool; r_pub : list (list (certarg cert)) }.
+Arguments mkrcv {key cert}.
+Arguments r_own {key cert}.
+Arguments r_must {key cert}.
+Arguments r_pub {key cert}.
+
+Inductive lstep (cert : Type) :=
+(* receiver r reloads its metadata; good = the new configuration loads (MetadataStore.reload then holds exactly
+   the new documents), otherwise the reload raises and the old metadata is restored *)
+| LReload (r : nat) (good : bool) (pub : list (list (certarg cert)))
+(* anything else done with receiver r (certificate look-ups with other arguments, signing and sending): no trace *)
+| LOther (r : nat)
+(* receiver r is handed a request of issuer iss on the redirect binding, parameter by parameter *)
+| LRecv (r iss : nat) (origdoc : string) (rs sigalg signature : option string).
+Arguments LReload {cert}.
+Arguments LOther {cert}.
+Arguments LRecv {cert}.
+
+Inductive lres := RReload (ok : bool) | ROther | RRecv (acc : bool).
+
 Section Crypto.
   Context {key cert : Type}.
   Variable cert_of : key -> cert.
@@ -236,6 +261,32 @@ Section Crypto.
       | _, _ => false
       end
     else true.
+
+  (* ---- a life: the steps in order, the state threaded through *)
+  Fixpoint upd_rcv (r : nat) (pub : list (list (certarg cert))) (st : list (receiver key cert))
+    : list (receiver key cert) :=
+    match st, r with
+    | [], _ => []
+    | rc :: t, O => mkrcv (r_own rc) (r_must rc) pub :: t
+    | rc :: t, S r' => rc :: upd_rcv r' pub t
+    end.
+
+  Definition life_step (st : list (receiver key cert)) (s : lstep cert) : list (receiver key cert) * lres :=
+    match s with
+    | LReload r good pub => (if good then upd_rcv r pub st else st, RReload good)
+    | LOther r => (st, ROther)
+    | LRecv r iss origdoc rs sigalg signature =>
+        (st, RRecv match nth_error st r with
+                   | Some rc => loads_redirect_c (r_own rc) (nth iss (r_pub rc) []) (r_must rc) origdoc rs sigalg signature
+                   | None => false
+                   end)
+    end.
+
+  Fixpoint run_life (st : list (receiver key cert)) (steps : list (lstep cert)) : list lres :=
+    match steps with
+    | [] => []
+    | s :: t => snd (life_step st s) :: run_life (fst (life_step st s)) t
+    end.
 End Crypto.
 Arguments CAbsent {cert}.
 Arguments CCert {cert} c.
